@@ -23,3 +23,8 @@ mod result_test;
 
 pub use handler::{ShowCommandHandler, handle};
 pub use orchestrator::ShowExecutionPipeline;
+
+/// Verification hook (compiled only with `--cfg sneldb_verif`): the SHOW response writer, so
+/// that it can be driven with generated batches like `query::QueryResponseWriter`.
+#[cfg(sneldb_verif)]
+pub use streaming::ShowResponseWriter;
